@@ -21,7 +21,8 @@ def sh(cmd, timeout=900):
     return rc, out
 try:
     shutil.copy(demo, os.path.join(wt, pkgdir, "zz_demo_" + os.path.basename(demo)))
-    democmd = "go test -vet=off -count=1 -timeout 600s -run '%s' ./%s" % (runre, pkgdir)
+    tags = os.environ.get("DEMO_TAGS", "")
+    democmd = "go test -vet=off -count=1 -timeout 600s %s-run '%s' ./%s" % ("-tags %s " % tags if tags else "", runre, pkgdir)
     rc0, out0 = sh(democmd)
     assert rc0 == 0, "demo does not pass on the unchanged tree:\n" + out0[-2000:]
     rc, out = sh("git apply %s" % os.path.abspath(patch)); assert rc == 0, out
